@@ -101,6 +101,16 @@ fn worker() {
                             "F8-tuple-pattern-on-missing-type"
                         } else if m.contains("cycle when querying module_macro_modules") {
                             "F9-macro-modules-cycle"
+                        } else if m.contains("`Result::unwrap()` on an `Err` value: DiagnosticAdded")
+                            && vcommon::last_panic_location().contains("cairo-lang-semantic/src/expr/compute.rs")
+                        {
+                            "F10-deref-replay-unwrap"
+                        } else if m.contains("TextOffset out of range")
+                            && (text.contains("\\u") || text.contains("\\x"))
+                        {
+                            // a diagnostic located past the end of the file, on a text with an escape
+                            // in a (format) string literal
+                            "F11-format-string-escape-offset"
                         } else {
                             ""
                         };
